@@ -154,6 +154,20 @@ Section V1.
     | None => []
     end.
 
+  (* how far the forwarder of s is behind the channel (accepted publishes it has not taken) *)
+  Definition behind (st : state) (s : N) : nat :=
+    match tasks st s with
+    | Some sb => match s_pc sb with PDone => 0 | _ => tail st - s_cursor sb end
+    | None => 0
+    end.
+  (* in every state visited by the run, s is at most `cap` behind *)
+  Fixpoint never_behind (st : state) (s : N) (ls : list label) : Prop :=
+    behind st s <= cap /\
+    match ls with
+    | [] => True
+    | l :: t => match step st l with Some st' => never_behind st' s t | None => True end
+    end.
+
   (* ---------- specification vocabulary over label sequences ---------- *)
   Fixpoint pubs_on (ls : list label) : list N :=
     match ls with
